@@ -156,6 +156,8 @@ var extraAddrs []string
 var rnsNamePool = []string{
 	"ab.jkl", "abxjkl", "hello.jkl", "Hello.JKL", "q.ibc", "longname.ibc", "sub.hello.jkl", "a b.jkl",
 	"jkl", "x.jkl", "abcd.jkl", "abc.ibc", "hello.xyz", "foo.hello.jkl", "zz-top.jkl",
+	// labels that contain the other TLD, or their own
+	"ibcfan.jkl", "myibc.jkl", "jklfan.ibc", "jkl.ibc", "ibc.jkl", "xjkl.jkl",
 }
 
 func lowerName(s string) string { return strings.ToLower(s) }
